@@ -108,7 +108,13 @@ impl Assembler {
         let mut buffers = old.into_sorted_vec();
         self.buffered = 0;
         let mut fragmented_buffered = 0;
-        let mut offset = 0;
+        // In ordered mode everything below the read index was already consumed: drop it instead of
+        // keeping it around (it must not resurface when the stream is switched to unordered mode)
+        let mut offset = if self.state.is_ordered() {
+            self.bytes_read
+        } else {
+            0
+        };
         for chunk in buffers.iter_mut().rev() {
             chunk.try_mark_defragment(offset);
             let size = chunk.bytes.len();
